@@ -39,6 +39,9 @@ CHECKS = {
  "C09": ("exploration", "runtime monitor on real sockets: raw UDP peer against the real IP and SCION listeners in a child process, 'no reply' decided by the ordering of a sentinel request, replies attributed by unique origin timestamps",
          "Complete first-byte space x boundary lengths x remainder kinds plus valid/invalid NTS requests over IP and SCION (service port and end-host port, empty and hand-built paths); every datagram's reply count and every reply's header and addressing checked.",
          "loopback only; SO_REUSEPORT 4-tuple affinity and in-order handling per socket (sentinel discipline); cookies from a real key exchange with the target", "3/C09"),
+ "C08": ("fault_enumeration", "runtime monitoring of child processes (race build => checkptr) hosting the real listeners and clients: structure-aware fault enumeration per receiving loop, every input logged before sending, liveness by sentinel request, RSS watchdog, goroutine census of the receive loops",
+         "Enumerates malformed-input classes x positions for NTP/NTS, SCION (headers, paths, options, SCMP), CSPTP and NTS-KE record streams plus hostile responses to the real clients; the oracle is process survival, an answered sentinel after every batch and an unchanged number of receive-loop goroutines.",
+         "loopback; hang = sentinel unanswered 3 x 5 s with the child alive; absence of crashes only for generated inputs", "3/C08"),
 }
 
 NOT_APPLICABLE = {
